@@ -15,6 +15,12 @@ CHECKS = {
     "C03": ("explicit-state BFS over edit histories of the real SimplicialComplex, closure invariants on states and removal/max_order relations on transitions",
             "Every history of SimplicialComplex's own mutators (five bulk formats x max_order, explicit/automatic IDs, removals by ID with state-dependent menus, node removal, close, cleanup, deprecated aliases, deviant calls) up to the depth bound is executed on the real class; downward closure, uniqueness, non-emptiness, incidence and has_simplex exactness (all subsets x 4 argument types) on every distinct state; step relations on every transition.",
             "bounded: 5 node labels, depth 3 / 4, deviation bound 1 / 2"),
+    "C04": ("explicit-state BFS over addition/removal histories from every provenance, freshness step relation on every transition",
+            "For each class, an ID-focused alphabet (automatic IDs, explicit IDs 0/1/2/5/-1/2.0/'e', decreasing and repeated IDs in bulk calls, add_node_to_edge, removals, merge with rename='new', clear) is explored breadth-first from every provenance as initial state (about 110 ways of obtaining a network: constructor input types, from_* converters, read_* functions on files in a scratch directory, generators, copy, pickle, relabelling, derived networks); on every transition: no pre-existing edge altered or removed, number of new IDs as expected, automatic IDs are integers, an existing explicit ID is refused with a warning and no change.",
+            "bounded: depth 3 / 4 from each provenance, ID menu as listed; provenances whose constructor raises on this tree are listed under not_exercised"),
+    "C05": ("explicit-state BFS over the full mutator alphabets with step-by-step refinement check against executable reference models; choice-point enumeration of the random source for random_edge_shuffle",
+            "On every transition of the C01/C02/C03 alphabets (all bulk formats, attribute precedence cases, weak/strong removal, remove_empty, merge rename x rule, clear, update, setters, swaps over state-dependent argument menus, random_edge_shuffle under every outcome of the owned random source) a reference model transcribed from the docstrings is loaded from the pre-state, executes the same call, and the full observable post-state (nodes, edges, members/tail+head, node/edge/network attributes) is compared; automatic IDs are adopted and checked for freshness; rejected edits with a missing/invalid ID must raise XGIError or IDNotFound; swaps/shuffles preserve degrees, sizes, IDs, attributes, untouched edges and shared nodes.",
+            "the reference models (xmc/refmodel.py) are trusted transcriptions; inputs the documentation leaves undefined are classified UNSPEC and not judged; depth 3 / 4"),
 }
 
 NOT_APPLICABLE = []
